@@ -145,6 +145,9 @@ class C07(Prop):
             "extra next() calls, Vec encoder, ArrayBuf<N> encoders for N around the frame length. non-trivial = payload non-empty")
     assumptions = ["Vec<u8>::try_reserve does not fail", "ArrayBuf capacities limited to the harness menu"]
 
+    def project(self, case, out):
+        return "" if case.line.startswith("encbx ") else coarse_derr(out)
+
     def cases(self, tier, rng):
         n = 700 if tier == "quick" else 6000
         out = []
@@ -159,6 +162,11 @@ class C07(Prop):
             for _ in range(2):
                 c = gen.cap_near(rng, fl)
                 out.append(Case("encb %d %s" % (c, h), "encb-array", dict(p=h, cap=c)))
+        # the largest fixed buffers of the harness menu with frames beyond 65 535 bytes (16-bit length fields); too slow
+        # for the model's linear capacity test, so compared with the frame specification only (suite encbx)
+        for cap, n in ((70000, 65536), (70000, 69000), (65536, 65500), (65536, 65530)):
+            p = gen.payload(rng, n)
+            out.append(Case("encbx %d %s" % (cap, hx(p)), "encb-giant-array", dict(p=hx(p), cap=cap)))
         if tier == "thorough":
             for b in gen.small_bodies(6):
                 out.append(Case("enci 1 " + hx(b), "small-enci", dict(p=hx(b))))
@@ -229,6 +237,14 @@ class C01(Prop):
             if len(p) > 20000:
                 cap = "-"      # the model's capacity test is linear in the buffer length: giant payloads go to the growable buffer
             out.append(Case("rt %s %s" % (cap, hx(p)), "rt" + ("-vec" if cap == "-" else "-array"), dict(p=hx(p))))
+            if len(p) <= 2000 and rng.random() < 0.3:
+                f = gen.frame(p)
+                # a decoder built by Decoder::from_buf on a used buffer, and a reader over an io::Read that reports
+                # Interrupted in the middle of the frame (read_exact retries), must return the payload just the same
+                out.append(Case("dec %s N,x%s,F" % (cap, hx(f)), "frombuf", dict(rt_dec=hx(p), flen=len(f))))
+                cut = rng.randint(1, len(f) - 1)
+                rcap = cap if cap in ("-", "64", "8192") or cap in [str(x) for x in RD_CAPS] else "-"
+                out.append(Case("rd io %s I,x%s,I,I,x%s,I nbnbnb" % (rcap, hx(f[:cut]), hx(f[cut:])), "io-interrupted", dict(rt_rd=hx(p))))
         if tier == "thorough":
             for b in gen.small_bodies(7):
                 c = gen.cap_at_least(len(b))
@@ -244,6 +260,17 @@ class C01(Prop):
     def oracle(self, cases, dbg, rel, spec):
         bad = []
         for i, c in enumerate(cases):
+            if "rt_dec" in c.meta or "rt_rd" in c.meta:
+                for prof, o in both(dbg, rel, i):
+                    if "rt_dec" in c.meta:
+                        L = c.meta["flen"]
+                        exp = "0:N;%d:M%s;%d:F-" % (L, c.meta["rt_dec"], L + 1)
+                    else:
+                        exp = "M%s;-;-" % c.meta["rt_rd"]
+                    if o != exp:
+                        bad.append(dict(case=c.line, why="%s build: round trip does not yield exactly the payload: got %s expected %s" % (prof, o[:300], exp[:300])))
+                        break
+                continue
             if not c.line.startswith("rt "):
                 continue
             p = c.line.split()[2]
@@ -462,7 +489,17 @@ RD_CAPS = ["-", "default", "8192", "1024", "256", "64", "32", "16", "8", "4", "0
 
 
 def model_line(line):
-    return line.replace(" default ", " 8192 ") if line.startswith("rd ") else line
+    if line.startswith("encbx "):
+        return "crc ."           # not run through the model (see C07.cases)
+    if line.startswith("rd "):
+        line = line.replace(" default ", " 8192 ")
+        f = line.split(" ")
+        # an iterator source that pauses (returns None, then resumes) behaves like an io::Read source whose read
+        # returns Ok(0) at that point: Eof is reported, later bytes are still delivered
+        if f[1] == "iter" and "Z" in f[3]:
+            f[1] = "io"
+            line = " ".join(f)
+    return line
 
 
 def transmission(rng, sml=True, maxpay=40, bad=0.15, with_noise=0.5):
@@ -515,6 +552,30 @@ def reader_cases(rng, n, faults=True):
         calls = "".join(rng.choice("rnRN" if kind != "eh" else "rR") + rng.choice("bfp") for _ in range(rng.randint(1, 14)))
         cap = rng.choice(RD_CAPS)
         out.append(Case("rd %s %s %s %s" % (kind, cap, ",".join(toks) or "x.", calls), "rd-" + kind, dict(s=s)))
+    out += iter_pause_cases(rng, max(20, n // 10))
+    return out
+
+
+def iter_pause_cases(rng, n):
+    """an iterator source that is not fused: it returns None between (or inside) transmissions and resumes later.
+    Every frame must still be delivered; each pause is one end-of-input report (or None when nothing is pending)."""
+    out = []
+    for _ in range(n):
+        frames = [gen.payload(rng, rng.randint(0, 12)) for _ in range(rng.randint(1, 3))]
+        toks = []
+        for p in frames:
+            f = gen.frame(p)
+            r = rng.random()
+            if r < 0.5:
+                toks += ["Z", "x" + hx(f)]                 # pause before the transmission
+            elif r < 0.8:
+                cut = rng.randint(1, len(f) - 1)
+                toks += ["x" + hx(f[:cut]), "Z", "x" + hx(f[cut:])]     # pause inside (costs that frame)
+            else:
+                toks += ["x" + hx(f)]
+        calls = "nb" * (2 * len(toks) + 4)
+        out.append(Case("rd iter %s %s %s" % (rng.choice(["-", "64", "default"]), ",".join(toks), calls), "rd-iter-pause",
+                        dict(pause_frames=[hx(p) for p in frames], toks=toks)))
     return out
 
 
@@ -778,6 +839,19 @@ class C15(Prop):
             out.append(Case("fstream %s 2 %s" % (rng.choice(bigcaps), h), "fstream", dict(grp=k, fe="fstream")))
             for kind in ("slice", "iter", "io"):
                 out.append(Case("rd %s %s x%s %s" % (kind, rng.choice(caps + ["default"] if len(s) <= 8192 else caps), h, ncalls), "rd-" + kind, dict(grp=k, fe="rd")))
+            if rng.random() < 0.5:
+                # a push decoder built with Decoder::from_buf from a buffer that still holds bytes is one more front-end
+                out.append(Case("dec %s N,x%s,F" % (rng.choice(bigcaps), h), "dec-frombuf", dict(grp=k, fe="dec")))
+            if s and rng.random() < 0.5:
+                # the same bytes through an io::Read that is interrupted now and then (read_exact retries): same stream
+                toks, i = [], 0
+                while i < len(s):
+                    j = min(len(s), i + rng.randint(1, 24))
+                    if rng.random() < 0.5:
+                        toks.append("I")
+                    toks.append("x" + hx(s[i:j]))
+                    i = j
+                out.append(Case("rd io %s %s %s" % (rng.choice(caps), ",".join(toks), ncalls), "rd-io-interrupted", dict(grp=k, fe="rd")))
         return out
 
     def nontrivial(self, case, out):
@@ -872,8 +946,10 @@ class C16(Prop):
             ml = max(0, L + d)
             m = gen.payload(rng, ml)
             q = gen.payload(rng, rng.randint(0, min(L, 12)))
-            out.append(Case("dec %d x%s,x%s" % (L, hx(gen.frame(m)), hx(gen.frame(q))), "exact" if d <= 0 else "toosmall",
-                            dict(m=m, q=q, N=L)))
+            # a quarter of the decoders are built with Decoder::from_buf from a buffer that still holds bytes
+            fb = rng.random() < 0.25
+            out.append(Case("dec %d %sx%s,x%s" % (L, "N," if fb else "", hx(gen.frame(m)), hx(gen.frame(q))),
+                            ("exact" if d <= 0 else "toosmall") + ("-frombuf" if fb else ""), dict(m=m, q=q, N=L, shift=1 if fb else 0)))
         for ml in [8190, 8191, 8192, 8193, 8194]:
             for _ in range(2 if tier == "quick" else 10):
                 m = gen.payload(rng, ml)
@@ -911,7 +987,8 @@ class C16(Prop):
                         why = "payload of %d bytes in a %d-byte buffer did not yield OutOfMemory first: %s" % (len(m), N, o[:200])
                 else:
                     q = c.meta["q"]
-                    evs = parse_events(o)
+                    sh = c.meta.get("shift", 0)
+                    evs = [(e[0] - sh, e[1], e[2]) for e in parse_events(o) if e[1] != "N"]
                     first = [e for e in evs if e[0] < fl]
                     if len(m) <= N:
                         exp = [(fl - 1, "M", hx(m)), (fl + len(gen.frame(q)) - 1, "M", hx(q))]
@@ -1073,8 +1150,9 @@ def io_count_cases(rng, n):
             pieces.append(fault)
             expect.append((n_unrep, fault))
         evs = ",".join(p for p in pieces if p)
-        calls = "rb" * (2 * len(expect) + 2)
-        out.append(Case("rd io %s %s %s" % (rng.choice(["-", "64", "8192"]), evs, calls), "io-count", dict(iocount=expect)))
+        meth = rng.choice("rRnN")            # read / read_nb / next / next_nb: the same counts through every entry point
+        calls = (meth + "b") * (2 * len(expect) + 2)
+        out.append(Case("rd io %s %s %s" % (rng.choice(["-", "64", "8192"]), evs, calls), "io-count-" + meth, dict(iocount=expect, meth=meth)))
     return out
 
 
@@ -1088,12 +1166,17 @@ def io_count_check(c, o):
             exp.append("IO%s:%d" % (kind, n_unrep[1]))
         else:
             exp.append("IO%s:%d" % (kind, n_unrep))
+    nothing = "IOEof:0"
+    if c.meta.get("meth", "r") in "nN":
+        # next / next_nb: end of input with nothing pending is None
+        exp = ["-" if x == "IOEof:0" else x for x in exp]
+        nothing = "-"
     got = [x for x in items][:len(exp)]
     if got != exp:
         return "counts attached to I/O errors do not tile the input: got %s expected %s" % (got, exp)
     rest = items[len(exp):]
-    if any(x != "IOEof:0" for x in rest):
-        return "after the input ended, read() reported %s" % rest[:4]
+    if any(x != nothing for x in rest):
+        return "after the input ended, the reader reported %s" % rest[:4]
     return None
 
 
@@ -1144,8 +1227,14 @@ class C18(Prop):
             N = rng.choice(menu)
             k = max(0, rng.choice([N - 1, N, N + 1, 0, rng.randint(0, N + 3)]))
             out.append(Case("abfrom %d %s" % (N, hx(bytes(rng.getrandbits(8) for _ in range(k)))), "abfrom", dict(N=N, k=k)))
+        # capacities beyond 65 535 with the fill level crossing 2^16 (a 16-bit length field would wrap)
+        for N, first in ((70000, 40000), (65536, 65530), (70000, 65535)):
+            rb = lambda k: hx(bytes(rng.getrandbits(8) for _ in range(max(0, k))))
+            ops = ["e" + rb(first), "e" + rb(65534 - first), "p11", "p22", "p33", "e" + rb(20), "t65534", "p01", "p02", "p03",
+                   "p04", "e" + rb(N - 65538), "p05", "e0102", "t3", "p06"]
+            out.append(Case("abuf %d %s" % (N, ",".join(ops)), "abuf-giant", dict(N=N)))
         for _ in range(n // 5):
-            N = rng.choice([c for c in menu if c <= 40])
+            N = rng.choice([c for c in menu if c <= 40] + [64, 100, 128, 200, 256, 300])
             o1 = self.gen_ops(rng, N, 12) or "c"
             o2 = o1 + ",p00,t%d" % rng.randint(0, N) if rng.random() < 0.4 else (self.gen_ops(rng, N, 12) or "c")
             out.append(Case("abeq %d %s %s" % (N, o1, o2), "abeq", dict(N=N)))
@@ -1278,6 +1367,44 @@ def sml_mutant_cases(rng, n):
     for _ in range(n):
         d, desc = gen.gen_mutant(rng)
         out.append(Case("parse " + hx(d), "mut:" + desc, dict(d=d)))
+    out += list_count_cases(rng)
+    return out
+
+
+def list_count_cases(rng):
+    """get-list responses whose announced list length disagrees with the entries present (checksums recomputed):
+    (a) shortest possible entries, list response last in the file, announced = present + d  (a parser that bounds its
+        loop by the remaining input instead of failing would accept fewer entries than announced);
+    (b) announced 2^32-1 / 2^32-2 with no entries, followed directly by the checksum field resp. by the next message
+        (a 32-bit state counter num_vals+2 wraps to 'expect checksum' / 'expect message')."""
+    out = []
+    saved = dict(gen.STYLE)
+    try:
+        for k in range(0, 5):
+            for d in (1, 2, 7, 100, 2 ** 32 - 1 - k):
+                for style in ("compact", "random"):
+                    if style == "compact":
+                        gen.STYLE.update(nonmin=0.0, absent=1000.0, compact=True)
+                    else:
+                        gen.STYLE.clear(); gen.STYLE.update(saved)
+                    m = gen.gen_message(rng, "list", nentries=k)
+                    ch = list(m["chunks"])
+                    j = len(ch) - 2 - 8 * k - 1          # the list TLF: before the entries (8 chunks each) and the 2 trailing fields
+                    ch[j] = gen.tlf_bytes(7, k + d, max(1, ((k + d).bit_length() + 3) // 4))
+                    pre = gen.close_message(rng, gen.gen_message(rng, "open")["chunks"]) if rng.random() < 0.5 else b""
+                    data = pre + gen.close_message(rng, ch)
+                    out.append(Case("parse " + hx(data), "mut:listcount-last", dict(d=data)))
+        gen.STYLE.clear(); gen.STYLE.update(saved)
+        for huge in ("ff8f8f8f8f8f8f0f", "ff8f8f8f8f8f8f0e"):
+            for _ in range(3):
+                m = gen.gen_message(rng, "list", nentries=0)
+                ch = list(m["chunks"])[:-2]               # drop list signature and gateway time
+                ch[-1] = bytes.fromhex(huge)
+                nxt = gen.close_message(rng, gen.gen_message(rng, rng.choice(["open", "close"]))["chunks"])
+                for data in (gen.close_message(rng, ch), b"".join(ch) + nxt, gen.close_message(rng, ch) + nxt):
+                    out.append(Case("parse " + hx(data), "mut:listcount-wrap", dict(d=data)))
+    finally:
+        gen.STYLE.clear(); gen.STYLE.update(saved)
     return out
 
 
@@ -1444,7 +1571,7 @@ class C06(ParserProp):
         for _ in range(12 if tier == "quick" else 150):
             m = gen.gen_message(rng, "list", nentries=rng.randint(0, 3))
             for i in range(len(m["chunks"])):
-                for t in gen.HUGE_TLFS[:14] if tier == "quick" else gen.HUGE_TLFS:
+                for t in gen.HUGE_TLFS[:18] if tier == "quick" else gen.HUGE_TLFS:
                     ch = list(m["chunks"])
                     b = ch[i]
                     j = 0
@@ -1657,6 +1784,12 @@ class C12(ParserProp):
                         tl.append(gen.tlf_bytes(ty, V, k))
         # multi-byte (non-minimal) TLFs of every type with a small value, incl. the reserved multi-byte boolean
         forced = set()
+        # zero-padded TLFs far longer than any counter of the TLF loop expects (a 32-bit value in 9..300 bytes)
+        for ty in (0, 6, 7):
+            for k in (9, 12, 17, 33, 255, 256, 257, 300):
+                for ln in (0, 2, 6):
+                    tl.append(gen.tlf_bytes(ty, ln + k if ty != 7 else ln, k))
+                    forced.add(tl[-1])
         for ty in (0, 4, 5, 6, 7, 1, 2, 3):
             for k in (2, 3, 4):
                 for ln in (0, 1, 2, 4, 8):
@@ -1856,6 +1989,7 @@ class C10(Prop):
                 evs = ",".join(toks)
             out.append(Case("rd %s %s %s %s" % (kind, cap, evs, calls), "e2e-" + kind,
                             dict(parts=parts, tail=tailn, calls=calls)))
+        out += iter_pause_cases(rng, n // 12)
         return out
 
     def nontrivial(self, case, out):
@@ -1894,6 +2028,28 @@ class C10(Prop):
     def oracle(self, cases, dbg, rel, spec):
         bad = []
         for i, c in enumerate(cases):
+            if "pause_frames" in c.meta:
+                # an iterator that pauses (returns None once) and resumes: every transmission not cut by a pause
+                # must still be yielded, in order
+                toks = c.meta["toks"]
+                want = []
+                k = 0
+                for p in c.meta["pause_frames"]:
+                    # the frame's tokens: [Z] x<f> | x<a> Z x<b> | x<f>
+                    if toks[k] == "Z":
+                        want.append("M" + p); k += 2
+                    elif k + 1 < len(toks) and toks[k + 1] == "Z" and k + 2 < len(toks) and toks[k + 2].startswith("x") and \
+                            unhx(toks[k][1:]) + unhx(toks[k + 2][1:]) == gen.frame(unhx(p)):
+                        k += 3            # pause inside the frame: that frame is lost
+                    else:
+                        want.append("M" + p); k += 1
+                for prof, o in both(dbg, rel, i):
+                    got = [x for x in (split_top(o) if o != "." else []) if x.startswith("M")]
+                    if got != want:
+                        bad.append(dict(case=c.line, why="%s build: iterator source pausing between transmissions: payloads yielded %s expected %s"
+                                        % (prof, got[:4], want[:4])))
+                        break
+                continue
             if "parts" not in c.meta:
                 continue
             exp = self.expected(c)
@@ -1970,7 +2126,7 @@ class C11(Prop):
                 # one Other error at position k
                 k = rng.randint(0, len(s))
                 a, b = s[:k], s[k:]
-                meth = "n" if kind == "io" else "r"
+                meth = rng.choice("nN") if kind == "io" else rng.choice("rR")
                 calls = (meth + "b") * base_calls
                 ev_full = ",".join(x for x in ["x" + hx(a) if a else "", "O", "x" + hx(b) if b else ""] if x)
                 out.append(Case("rd %s %s %s %s" % (kind, cap, ev_full, calls), "other-full", dict(grp=g, role="full", a=a, kind=kind)))
@@ -1980,7 +2136,12 @@ class C11(Prop):
                 # end of input at a cut, many further calls
                 k = rng.randint(0, len(s))
                 a = s[:k]
-                calls = "nb" * (base_calls + 3)
+                if rng.random() < 0.3:
+                    # ... or directly after a transmission that is rejected at its very last byte (checksum)
+                    f = bytearray(gen.frame(gen.payload(rng, rng.randint(0, 12))))
+                    f[-1] ^= 0xFF
+                    a = s + bytes(f)
+                calls = (rng.choice("nN") + "b") * (len(a) // 8 + 9)       # next() or next_nb()
                 out.append(Case("rd io %s %s %s" % (cap, ("x" + hx(a)) if a else "x.", calls), "eof", dict(grp=g, role="eof", a=a)))
                 out.append(Case("dec %s %s" % ("8192" if cap == "default" else cap, ("x" + hx(a) + ",F") if a else "F"), "eof-fin", dict(grp=g, role="fin")))
         return out
@@ -2000,7 +2161,7 @@ class C11(Prop):
                 where = None
                 def trim(items):
                     # drop the end-of-input tail (None / WouldBlock forever / Eof:0)
-                    while items and items[-1] in ("-", "IOEof:0", "IOWouldBlock:0"):
+                    while items and items[-1] in ("-", "IOEof:0", "IOWouldBlock:0", "WB"):
                         items.pop()
                     return items
                 if "faulty" in d:
